@@ -142,6 +142,17 @@ class NativeBackend:
         return tuple(out) == tuple(c)
 
     def tlen(self, ts): return len(ts)
+
+    def dedup_key(self, K, X):
+        d = {}
+        for r in X[1]:
+            d[tuple(unrow(r)[k] for k in sorted(K))] = r
+        return (X[0], tuple(d.values()))
+
+    def mapc(self, t, cl, X): return self.calc(t, cl, X)
+    def filterc(self, cl, X): return self.filter(cl, X)
+    def den_x(self, cl, e): return all(cl.fn(r) == e.fn(r) for r in ALL_ROWS)
+    def den_p(self, cl, p): return all(bool(cl.fn(r)) == bool(p.fn(r)) for r in ALL_ROWS)
     def i(self, n): return n
     def add(self, a, b): return a + b
     def sub(self, a, b): return a - b
@@ -184,6 +195,8 @@ def domain(kind, N, rng):
         return PREDS
     if kind == "Expr":
         return EXPRS
+    if kind == "Callable":
+        return EXPRS + PREDS
     if kind == "Int":
         return list(range(-1, 5))
     if kind == "OptInt":
@@ -237,6 +250,12 @@ def direct(l, vals, B, rng):
         c = [(A, Bv) for A in range(0, 9) for Bv in [None] + list(range(0, 9)) if wf(B, A, Bv) and win_equiv(B, a1, b1, a2, b2, A, Bv)]
         if c:
             v["A"], v["Bv"] = rng.choice(c)
+    elif l.name == "callable-calc":
+        v["cl"] = v["e"]
+    elif l.name == "callable-filter":
+        v["cl"] = v["p"]
+    elif l.name == "dedup-by-all-columns":
+        v["K"] = v["X"][0]
     elif l.name in ("proj-proj",):
         v["P"] = frozenset(t for t in v["Q"] if rng.random() < 0.6)
     elif l.name == "proj-full":
